@@ -295,6 +295,8 @@ def tyContexts (hasLt : Bool) : List (Ty → Ty) :=
    fun t => .slice t, fun t => .array t (.lit "3"), fun t => .tuple [t], fun t => .tuple [Ty.simple "u8", t],
    fun t => .tuple [t, Ty.simple "u8"], fun t => .bareFn [t] none, fun t => .bareFn [] (some t),
    fun t => .bareFn [Ty.simple "u8", t] (some (Ty.simple "u8")), fun t => .paren t,
+   fun t => .prefixed ["for", "<", "'x", ">"] (.bareFn [.ref (some "'x") false t] none),
+   fun t => .prefixed ["unsafe", "extern", "\"C\""] (.bareFn [t] (some t)),
    fun t => Ty.app "Box" [.dynT false [.mk "Tr2" [.ty t]]], fun t => Ty.app "Box" [.dynT false [.mk "Tr2" [.ty t]] [["Send"]]],
    fun t => Ty.app "Box" [.dynT false [.fn "Fn" [t] none]], fun t => Ty.app "Box" [.dynT false [.fn "Fn" [] (some t)]],
    fun t => Ty.app "Box" [.dynT true [.mk "core" [], .mk "ops" [], .fn "FnMut" [Ty.simple "u8", t] (some (Ty.simple "u8"))]],
@@ -774,6 +776,7 @@ def Ty.mapIdent (f : String → String) : Ty → Ty
   | .never => .never
   | .dynT g segs more => .dynT g (Seg.mapIdentL f segs) more
   | .macro toks => .macro toks
+  | .prefixed pre t => .prefixed pre (Ty.mapIdent f t)
 def Ty.mapIdentO (f : String → String) : Option Ty → Option Ty
   | none => none
   | some t => some (Ty.mapIdent f t)
